@@ -1887,6 +1887,12 @@ impl OverlayFs {
             return Err(Error::from_raw_os_error(libc::ENOENT));
         }
 
+        if !dir && utils::is_dir(node.stat64(ctx)?) {
+            // unlink(2) of a directory; without this check a directory that only exists in
+            // lower layers is whiteouted as a whole, even when it is not empty.
+            return Err(Error::from_raw_os_error(libc::EISDIR));
+        }
+
         if dir {
             self.load_directory(ctx, &node)?;
             let (count, whiteouts) = node.count_entries_and_whiteout(ctx)?;
